@@ -36,6 +36,29 @@ theorem task_events_local (P : Proj) (insts : Insts) (w : Nat) (t : TaskId) (run
   obtain ⟨hs, _, _⟩ := runTask_of_tr P insts w t run reason kept cut h (jt_init _)
   exact (ownEv_iff L e).mp (hs _ he)
 
+/-- **Every exit path of a `thread` act runs `Thread.run`'s epilogue.**  Whatever the script of the `lcc.Thread`
+    does — return, raise an `Exception` / an `Abort*` (an error is logged first: `threadLogs`), be interrupted, or
+    raise a `BaseException` that is no `Exception` (`sys.exit()`, `GeneratorExit`, a project's own: NOTHING is
+    logged) — the last session call of the new thread `c` is `threadEnd` (`finally: end_step()`), the act itself
+    raises nothing (the test goes on), and what the thread logged is kept.  With
+    `C07.no_step_left_open_after_thread_end`: the thread's step is closed in the stream. -/
+theorem thread_act_always_runs_the_epilogue (fuel role : Nat) (u : UnitId) (i : Nat) (inner : Script) (ts : TS) :
+    let c := ts.nextChild
+    let s0 := (exec (sop c .threadRun) (exec (sop role (.threadCreate c)) { ts with nextChild := c + 1 }).2).2
+    let r := exec (execScript fuel c (.th u i) inner) s0
+    exec (actStep fuel role u i (.thread inner)) ts =
+      (none, (exec (sop c .threadEnd) (if threadLogs r.1 then (exec (sop c (.log .error "")) r.2).2 else r.2)).2) := by
+  unfold actStep
+  simp only [exec_bind, exec_get, exec_modify]
+  split <;> rfl
+
+/-- which outcomes of the thread's target `Thread.run` logs as an error: every one except a return and a
+    `BaseException` that is not an `Exception` -/
+theorem thread_logs_iff (r : Option ExcKind) : threadLogs r = true ↔ ∃ k, r = some k ∧ k ≠ .baseExc := by
+  cases r with
+  | none => simp [threadLogs]
+  | some k => cases k <;> simp [threadLogs, ExcKind.caughtByThread]
+
 /-- the suite begin / end tasks have no location; their single event is located by `C01Run.suite_begin_items`
     and `C01Run.suite_end_items` -/
 theorem begin_end_no_loc (t : TaskId) : taskLoc t = none ↔ t.kind = .begin ∨ t.kind = .end_ := by
